@@ -1,0 +1,16 @@
+//go:build verif
+
+package genetics
+
+// This file exists only in builds with the `verif` tag: export shims for the checks that grow the specification
+// beyond the listed properties (sort orders, champion selection). Pure accessors, no behaviour.
+
+// VerifByOrganismOrigFitness exports the sort order of species used by the epoch executor
+// (sort.Sort(sort.Reverse(byOrganismOrigFitness(sortedSpecies)))).
+type VerifByOrganismOrigFitness = byOrganismOrigFitness
+
+// VerifFindChampion exports Species.findChampion.
+func (s *Species) VerifFindChampion() *Organism { return s.findChampion() }
+
+// VerifSetOriginalFitness sets the fitness remembered by adjustFitness before sharing.
+func (o *Organism) VerifSetOriginalFitness(f float64) { o.originalFitness = f }
